@@ -415,6 +415,14 @@ def run(cx, rep):
     # ---------------------------------------------------------------- C15.10
     rep.rule("C15.10", "template chunks are stored cooked and printed escaped")
     template_chunk_rule(cx, rep, "C15.10")
+    rep.rule("C15.11", "placeholders and unions of a printed template literal type stand inside ${..}")
+    template_placeholder_rule(cx, rep, "C15.11")
+    # ---------------------------------------------------------------- C15.12
+    rep.rule("C15.12", "describe() keeps no state on the validator instances (declarations are registered while walking)")
+    from rules.c16 import instance_state_rule
+    _m15 = ts_common.Family(cx).mod
+    instance_state_rule(_m15, None, rep, "C15.12", roots=("describe", "describeTypeExpr", "describeChildren"), what="describe()", floor=25,
+                        why="the declarations of named types are registered in the describe context as a side effect of walking the node; text replayed from the (shared) instance names the type without registering it, so a later describe() prints a type that is declared nowhere")
     # ---------------------------------------------------------------- C15.8
     rep.rule("C15.8", "describe methods read every constructor argument they read on the reviewed tree")
     ts_common.field_matrix_rule(cx, rep, "C15.8", ['describeTypeExpr', 'describeChildren', 'describe'])
@@ -535,3 +543,99 @@ def template_chunk_rule(cx, rep, rid):
                    "%s prints a template chunk between backticks without escaping %s: a chunk that contains one of them is printed as different template source (another type, an interpolation, or a syntax error), so the description does not compile back to the same validator" % (g, missing),
                    "%s:%s" % (f.file, a["line"]), sample={"fn": g, "escapes": sorted(reps)})
     rep.floor(rid, "chunk arms of the template printer", n, 1)
+
+
+def _fmt_pieces(hexs):
+    """pieces of a compiled format template (the byte string handed to fmt::Arguments::new): literal runs and None for
+    a placeholder; None when the encoding is not the simple one"""
+    try:
+        b = bytes.fromhex(hexs)
+    except ValueError:
+        return None
+    out, i = [], 0
+    while i < len(b):
+        c = b[i]
+        if c == 0:
+            return out
+        if c == 0xC0:
+            out.append(None)
+            i += 1
+        elif c < 0x80:
+            out.append(b[i + 1:i + 1 + c].decode("utf-8", "replace"))
+            i += 1 + c
+        else:
+            return None
+    return out
+
+
+def _template_item_enum(F):
+    """the enum of template items, by role: an enum of the IR module with a variant whose payload is a collection of
+    the enum itself (the union of alternatives) and a fieldless variant family (the placeholders)"""
+    cands = []
+    for gid, a in sorted(F.adts.items()):
+        if not gid.startswith("ast::") or len(a["variants"]) < 3:
+            continue
+        for v in a["variants"]:
+            for fl in v["fields"]:
+                if re.search(r"(BTreeSet|Vec|HashSet)<%s>" % re.escape(gid), fl["ty"]):
+                    cands.append((gid, v["name"]))
+    # .. and the one a function prints as template source: an arm for one of its variants yields "${..}"
+    for gid, vn in cands:
+        for g, t in F.hir.items():
+            for m in hwalk(t["body"]):
+                if m["k"] == "Match" and any((a["pat"].get("def") or "").startswith(gid + "::") and any(
+                        x["k"] == "Lit" and x.get("lit") == "str" and (x.get("v") or "").startswith("${") for x in hwalk(a["body"])) for a in m["arms"]):
+                    return gid, vn
+    return None, None
+
+
+def template_placeholder_rule(cx, rep, rid):
+    """Inside the backticks of a printed template literal type everything that is not chunk text must stand in a
+    `${..}` substitution: `${string}`, `${number}`, and a union of alternatives as `${"A" | "B"}`.  Printed without
+    the `${` `}` the alternatives are TEXT: `("A" | "B")` between backticks is the one string `("A" | "B")`, so the
+    description compiles to a different validator.  Decided on the function of the IR module that prints template
+    items (it yields "${string}"): every arm for an item that is not chunk text yields text that begins with `${` and
+    ends with `}` (string literals and the literal parts of format templates)."""
+    F = cx.rs
+    enum, rec_variant = _template_item_enum(F)
+    if enum is None:
+        rep.anchor_missing(rid, "the template item enum (a variant holding a collection of the enum itself)")
+        return
+    n = 0
+    for g, t in sorted(F.hir.items()):
+        f = F.fns.get(g)
+        if f is None or f.kind == "Closure" or not (f.file or "").endswith("ast/runtype.rs") or "String" not in (f.output or ""):
+            continue
+        for m in hwalk(t["body"]):
+            if m["k"] != "Match":
+                continue
+            arms = [(a, (a["pat"].get("def") or "")) for a in m["arms"]]
+            if not any(d.startswith(enum + "::") for _, d in arms):
+                continue
+            if not any(x["k"] == "Lit" and x.get("lit") == "str" and (x.get("v") or "").startswith("${") for a, _ in arms for x in hwalk(a["body"])):
+                continue          # not the printer of template source (e.g. the regex builder)
+            for a, d in arms:
+                if not d.startswith(enum + "::"):
+                    continue
+                vname = d.rsplit("::", 1)[-1]
+                payload_is_text = any("String" in (p.get("ty") or "") or "str" in (p.get("ty") or "") for p in hwalk(a["pat"]) if p["k"] == "P.Binding")
+                if payload_is_text:
+                    continue      # chunk text: C15.10
+                pieces = []
+                for x in hwalk(a["body"]):
+                    if x["k"] == "Lit" and x.get("lit") == "str":
+                        pieces.append(x.get("v") or "")
+                    elif x["k"] == "Lit" and x.get("lit") == "bytes":
+                        ps = _fmt_pieces(x.get("v") or "")
+                        if ps:
+                            pieces += [p for p in ps if p]
+                # the text the arm yields: its last string-producing expression - approximated by the literal pieces
+                # that are not separators of a join
+                joins = {x["args"][0].get("v") for x in hwalk(a["body"]) if x["k"] == "MethodCall" and x["method"] == "join" and x["args"] and x["args"][0]["k"] == "Lit"}
+                outer = [p for p in pieces if p not in joins]
+                n += 1
+                ok = bool(outer) and outer[0].startswith("${") and outer[-1].endswith("}")
+                rep.ob(rid, "%s-in-substitution" % vname, ok,
+                       "%s prints a template item of kind %s as %s between the backticks, not inside a `${..}` substitution: the printed template literal type contains it as TEXT (`%s` is one string), so describe() / the printed type compiles to a different validator" % (g, vname, " .. ".join(repr(p) for p in outer) or "nothing", "(\"A\" | \"B\")"),
+                       "%s:%s" % (f.file, a.get("line", m.get("line"))), sample={"fn": g, "variant": vname, "literal_parts": outer})
+    rep.floor(rid, "placeholder arms of the template printer", n, 3)
